@@ -139,27 +139,73 @@ def c06b(ctx):
         for a in oks:
             if not qf.site_dominates(fin[0], a):
                 ctx.fail(o, a, "query_for can return Ok without the final SCC check: a value computed inside a cycle would leak to the caller")
-    o = ctx.ob("C06.b", "check_cyclic_internal/marks-and-recurses", "K3", "the probe marks every computation on a found path and visits all registered callees")
+    o = ctx.ob("C06.b", "check_cyclic_internal/visits-all-marks-found", "K3+K4", "the probe looks at every registered callee of every reachable computation and marks exactly the computations that reach the caller")
     p = ctx.touch(prog.body("Engine::check_cyclic_internal"))
     stores = p.calls_to(r"core::sync::atomic::AtomicBool::store$|Atomic::<bool>::store$")
     it = p.calls_to(r"scc::hash_map::HashMap::<K, V, H>::iter_sync$")
     cont = p.calls_to(r"scc::hash_map::HashMap::<K, V, H>::contains_sync$")
-    cl = [c for c in prog.find(r"^Engine::check_cyclic_internal::\{closure#0\}$")]
-    o.sites = len(stores) + len(it) + len(cont) + len(cl)
-    if len(stores) < 2 or len(it) != 1 or len(cont) != 1 or len(cl) != 1:
-        ctx.fail(o, Site(p, 0, 0), "anchors missing in check_cyclic_internal (flag stores=%d iter_sync=%d contains_sync=%d closure=%d)" % (len(stores), len(it), len(cont), len(cl)))
+    getc = p.calls_to(r"Computing::<C>::try_get_query_computing$")
+    cl = [c for c in prog.find(r"^Engine::check_cyclic_internal::\{closure#\d+\}$") if c.calls_to(r"alloc::vec::Vec::<T(, A)?>::push$")]
+    # the closure handed to iter_sync (the other pushing closure feeds the visited map)
+    if it:
+        handed = {x.site.node["rv"].get("def") for x in df.origins_of_operand(p, it[0].node["args"][-1]) if x.kind == "agg"}
+        cl = [c for c in cl if c.key in handed]
+    o.sites = len(stores) + len(it) + len(cont) + len(getc) + len(cl)
+    if len(stores) != 1 or len(it) != 1 or len(cont) != 1 or len(getc) != 1 or len(cl) != 1:
+        ctx.fail(o, Site(p, 0, 0), "anchors missing in check_cyclic_internal (flag stores=%d iter_sync=%d contains_sync=%d try_get_query_computing=%d collecting closure=%d)" % (
+            len(stores), len(it), len(cont), len(getc), len(cl)))
     else:
         c = ctx.touch(cl[0])
-        if not c.calls_to(r"::check_cyclic_internal$"):
-            ctx.fail(o, Site(c, 0, 0), "the callee visitor does not recurse")
-        # the closure must keep iterating (return true) on every path
-        rets = [x for x in df.origins_of_place(c, [0, []]) if x.kind == "const"]
-        if any(str(x.info) in ("const false", "false") for x in rets):
-            ctx.fail(o, Site(c, 0, 0), "the callee visitor can stop the iteration early (returns false): a cycle through a later callee would be missed")
-        # every `return true`/found path stores the flag first
-        for a in p.assigns(lambda st: st["lhs"] == [0, []] and st["rv"]["k"] == "use" and (st["rv"]["op"].get("c") or {}).get("s") in ("const true", "true")):
-            if not any(p.site_dominates(s, a) for s in stores):
-                ctx.fail(o, a, "check_cyclic_internal reports a cycle without marking the computation as in-SCC")
+        # the collecting closure keeps iterating (returns true) on every path
+        rets = df.origins_of_place(c, [0, []])
+        if not rets or not all(x.kind == "const" and str(x.info) in ("const true", "true") for x in rets):
+            ctx.fail(o, Site(c, 0, 0), "the callee collector can stop the iteration early (returns false): a cycle through a later callee would be missed")
+        # the target test is on the caller's id (the parameter), for every visited node (inside the worklist loop)
+        if not all(x.kind == "param" for x in df.origins_of_operand(p, cont[0].node["args"][1])):
+            ctx.fail(o, cont[0], "the probe does not test for the caller's id")
+        # marking is conditional on the node's `reaches` flag
+        sb_guards = [sb for sb in df.switches(p) if p.bb_dominates(sb, stores[0].bb) and df.switch_cond(p, sb).kind in ("value", "call")]
+        if not any(p.edge_dominates((sb, tb), stores[0].bb) for sb in sb_guards for v, tb in df.switch_edges(p, sb)):
+            ctx.fail(o, stores[0], "computations are marked as in-SCC unconditionally")
+        # the value returned is the root's flag (computed, not a constant)
+        ro = df.origins_of_place(p, [0, []])
+        if any(x.kind == "const" for x in ro):
+            ctx.fail(o, Site(p, 0, 0), "check_cyclic_internal can answer with a constant (%s) instead of the computed reachability of the caller: a query outside a cycle that asks for a "
+                     "cycle member would be told it closes a cycle (and evaluate to its own cycle default), or a real cycle would be missed" % sorted(str(x.info) for x in ro if x.kind == "const"))
+    o = ctx.ob("C06.b", "check_cyclic_internal/each-computation-once-no-lock-while-descending", "K3+K4",
+               "the wait-for graph may contain rings that do not go through the caller: the probe must visit each computation once and must not descend while holding a callee-table bucket")
+    o.sites = 2
+    # (i) no recursion from inside a closure handed to a locking iteration of a shared table
+    rec = [s for s in prog.callers_of(r"::check_cyclic_internal$") if s.body.name.startswith("Engine::check_cyclic_internal")]
+    for s in rec:
+        under_lock = s.body.kind == "Closure" and any(
+            x.kind == "agg" and x.site.node["rv"].get("def") == s.body.key
+            for it_ in prog.bodies[s.body.parent].calls_to(r"scc::hash_(map|set)::Hash(Map|Set)::<[^>]*>::(iter_sync|read_sync|retain_sync|any_sync)$")
+            for x in df.origins_of_operand(prog.bodies[s.body.parent], it_.node["args"][-1])) if s.body.parent in prog.bodies else False
+        guarded = False
+        b2 = s.body
+        for sb in df.switches(b2):
+            os_ = df.origins_of_operand(b2, b2.blocks[sb]["term"]["op"])
+            if any(x.kind == "call" and re.search(r"::(insert|contains|insert_sync|contains_sync)$", x.callee() or "") for x in os_) and b2.bb_dominates(sb, s.bb):
+                guarded = True
+        if under_lock:
+            ctx.fail(o, s, "the cycle probe recurses from inside the iter_sync closure, i.e. while holding a bucket lock of the table it walks: on a ring that does not contain the caller "
+                     "it re-enters that table and blocks (or recurses) for ever — the request of a query outside an already closed cycle never completes")
+        elif not guarded:
+            ctx.fail(o, s, "the cycle probe recurses without a visited set: a ring that does not contain the caller is walked for ever")
+    if not rec:
+        # iterative form: new computations enter the worklist only through a visited-map entry
+        ent = p.calls_to(r"HashMap::<K, V, S(, A)?>::entry$")
+        oiw = p.calls_to(r"Entry::<'a, K, V(, A)?>::or_insert_with$|hash::map::Entry<'a, K, V(, A)?>::or_insert_with$|::or_insert_with$")
+        pushes = [c for c in prog.find(r"^Engine::check_cyclic_internal::\{closure#\d+\}$") if any("nodes" in n for n, _ in c.rec["dbg"])]
+        if len(ent) != 1 or len(oiw) != 1:
+            ctx.fail(o, Site(p, 0, 0), "the worklist of check_cyclic_internal is not de-duplicated through a visited map (entry().or_insert_with())")
+        else:
+            if not any(x.kind == "call" and x.site == getc[0] for x in df.origins_of_operand(p, ent[0].node["args"][1], extra_transparent=[(r"alloc::sync::Arc::<T(, A)?>::as_ptr$", None)])) if getc else True:
+                ctx.fail(o, ent[0], "the visited map is not keyed by the computation that is about to be added")
+        # no lock-holding iteration contains the descent: the iter_sync closure only collects keys
+        if len(cl) == 1 and cl[0].calls_to(r"try_get_query_computing$|::check_cyclic"):
+            ctx.fail(o, Site(cl[0], 0, 0), "the iter_sync closure looks up / descends into callees while the bucket is locked")
 
 
 def c06c(ctx):
